@@ -409,20 +409,20 @@ class SpectralDensity(DFunction, UnitsManaged):
             cfce[numpy.isclose(omega, 0, atol=1e-05)] = 0
             
         if values is not None:
-            self._make_me(self.axis, values)
+            self._add_me(self.axis, values)
             print('spectral density made from correlation function values')
 
         else:
-            self._make_me(self.axis, cfce)
+            # the line shape is normalized to the requested reorganization
+            # energy; it is measured on this component alone, components
+            # collected so far are left as they are
             with energy_units("int"):
-                meareorg = self.measure_reorganization_energy()
+                meareorg = self.measure_reorganization_energy(data=cfce)
             cfce = (lamb/meareorg)*cfce
-            self._make_me(self.axis, cfce)
+            self._add_me(self.axis, cfce)
 
-        self.lamb = lamb     
-        self.lim_omega = numpy.zeros(2)
-        self.lim_omega[0] = 0.0
-        self.lim_omega[1] = 0.0
+        # this component adds nothing to the zero-frequency limits
+        self.lamb += lamb
             
     def _make_value_defined(self, values=None):
         """ Value defined spectral density
@@ -562,15 +562,18 @@ class SpectralDensity(DFunction, UnitsManaged):
         """
         return self.convert_energy_2_current_u(self.lamb)
 
-    def measure_reorganization_energy(self):
+    def measure_reorganization_energy(self, data=None):
         """Calculates the reorganization energy of the spectral density
 
         Calculates the reorganization energy of the spectral density by
-        integrating over frequency.
+        integrating over frequency. If `data` are submitted, they are
+        integrated (on the axis of this object) instead of the object's data.
         """
         import scipy.interpolate as interp
 
-        integr = self.data/self.axis.data
+        if data is None:
+            data = self.data
+        integr = data/self.axis.data
         uvspl = interp.UnivariateSpline(self.axis.data, integr, s=0)
         integ = uvspl.integral(0.0, self.axis.max)/numpy.pi
 
